@@ -918,12 +918,12 @@ theorem default_is_first_by_filename (blocks : Blocks) (order : List Name) (c : 
   exact (List.pairwise_cons.mp this).1
 
 example :
-    let blocks : Blocks := [("z.pem".toList, ⟨some 1, some 1⟩), ("a-key.pem".toList, ⟨none, some 0⟩),
-      ("B.pem".toList, ⟨some 2, some 2⟩), ("a-cert.pem".toList, ⟨some 0, none⟩), ("notes.txt".toList, ⟨none, none⟩)]
+    let blocks : Blocks := [("z.pem".toList, ⟨some 1, some 1, 0⟩), ("a-key.pem".toList, ⟨none, some 0, 0⟩),
+      ("B.pem".toList, ⟨some 2, some 2, 0⟩), ("a-cert.pem".toList, ⟨some 0, none, 0⟩), ("notes.txt".toList, ⟨none, none, 0⟩)]
     loadCertificates blocks (blocks.map (·.1)) = some [("B.pem".toList, 2), ("a-cert.pem".toList, 0), ("z.pem".toList, 1)] ∧
     loadCertificates blocks (blocks.map (·.1)).reverse = loadCertificates blocks (blocks.map (·.1)) ∧
     -- one unusable pair spoils the whole material: nothing is published
-    loadCertificates (("q-cert.pem".toList, ⟨some 3, none⟩) :: blocks) ("q-cert.pem".toList :: blocks.map (·.1)) = none := by
+    loadCertificates (("q-cert.pem".toList, ⟨some 3, none, 0⟩) :: blocks) ("q-cert.pem".toList :: blocks.map (·.1)) = none := by
   decide
 
 end Fabio.Props.C11
